@@ -19,6 +19,8 @@ const NTYPES: u64 = 9;
 const TYPE_NAMES: [&str; 9] = ["SectionHeader", "ProgramHeader", "Symbol", "Dyn", "VersionIndex", "u32", "u64", "Rel", "Rela"];
 
 fn setup(ctx: &mut Ctx) {
+    #[cfg(all(target_pointer_width = "64", not(miri)))]
+    ctx.floor("entries-at-byte-offsets>=2^32", 100);
     ctx.floor("clone-checked", 1000);
     for t in TYPE_NAMES {
         ctx.floor(&format!("tables:{t}"), 8);
@@ -40,6 +42,8 @@ fn strata(t: Tier) -> Vec<Stratum> {
         // the tables and entry iterators both parsers hand out for generated files whose sections are
         // ragged, overlap or share a start, accessed in random order and repeatedly
         st("tables-via-parsers", scale(t, 60_000, 600_000, 2)),
+        // tables over a slice that really is longer than 4 GiB: entries whose byte offset is >= 2^32
+        st("tables-beyond-4GiB", scale(t, 160, 1600, 0)),
     ]
 }
 
@@ -357,8 +361,68 @@ fn via_parsers(ctx: &mut Ctx) {
     }
 }
 
+fn huge_table<P: ParseAt + Fields>(ctx: &mut Ctx, enc: Enc, buf: &mut [u8]) {
+    use super::util::entries_mismatch;
+    let es = size_of(P::ST, enc.c64);
+    let class = class_of(enc);
+    let n = buf.len() / es;
+    let first = ((1usize << 32) / es).saturating_sub(2);
+    // distinct content in the entries around the 2^32 byte mark and in the last two
+    let mut touched: Vec<usize> = (first..first + 5).chain(n - 2..n).collect();
+    touched.dedup();
+    let seed = ctx.rng.next_u64();
+    let mut r = crate::rng::Rng::new(seed);
+    for &i in &touched {
+        for b in buf[i * es..(i + 1) * es].iter_mut() {
+            *b = r.next_u64() as u8;
+        }
+    }
+    {
+        let view: &[u8] = buf;
+        let bad = match (enc.big, ctx.rng.bool()) {
+            (false, false) => {
+                let t = ParsingTable::<LittleEndian, P>::new(LittleEndian, class, view);
+                if t.len() != n { Some(format!("len {} != {}", t.len(), n)) } else if t.get(n).is_ok() { Some("get(len) succeeded".to_string()) } else { entries_mismatch::<P, _>(enc, view, 0, &touched, |i| t.get(i).ok()) }
+            }
+            (true, false) => {
+                let t = ParsingTable::<BigEndian, P>::new(BigEndian, class, view);
+                if t.len() != n { Some(format!("len {} != {}", t.len(), n)) } else if t.get(n).is_ok() { Some("get(len) succeeded".to_string()) } else { entries_mismatch::<P, _>(enc, view, 0, &touched, |i| t.get(i).ok()) }
+            }
+            (big, true) => {
+                let e = if big { AnyEndian::Big } else { AnyEndian::Little };
+                let t = ParsingTable::<AnyEndian, P>::new(e, class, view);
+                if t.len() != n { Some(format!("len {} != {}", t.len(), n)) } else if t.get(n).is_ok() { Some("get(len) succeeded".to_string()) } else { entries_mismatch::<P, _>(enc, view, 0, &touched, |i| t.get(i).ok()) }
+            }
+        };
+        ctx.evals(touched.len() as u64);
+        ctx.count("entries-at-byte-offsets>=2^32");
+        if let Some(m) = bad {
+            ctx.violation(&format!("{}:beyond-4GiB", P::NAME), format!("{} table over a {}-byte slice ({}; {n} entries, entries {first}.. start at byte {:#x}): {m}", P::NAME, view.len(), enc.name(), first * es));
+        }
+    }
+    for &i in &touched {
+        buf[i * es..(i + 1) * es].fill(0);
+    }
+}
+
 fn run(ctx: &mut Ctx, si: usize, case: u64) {
     match si {
+        3 => {
+            let ty = ctx.rng.below(7);
+            let enc = Enc::ALL[ctx.rng.usize_below(4)];
+            let done = super::util::with_huge_buffer(|buf| match ty {
+                0 => huge_table::<SectionHeader>(ctx, enc, buf),
+                1 => huge_table::<ProgramHeader>(ctx, enc, buf),
+                2 => huge_table::<Symbol>(ctx, enc, buf),
+                3 => huge_table::<Dyn>(ctx, enc, buf),
+                4 => huge_table::<VersionIndex>(ctx, enc, buf),
+                5 => huge_table::<u32>(ctx, enc, buf),
+                _ => huge_table::<u64>(ctx, enc, buf),
+            });
+            if done.is_none() {
+                ctx.count("beyond-4GiB:not-on-this-target");
+            }
+        }
         2 => via_parsers(ctx),
         0 => {
             let ty = case / 4;
